@@ -83,6 +83,7 @@ func verifC20VoleUF(m, rounds int) {
 func verifC20VoleUF1()   { verifC20VoleUF(1, 1) }
 func verifC20VoleUF3x2() { verifC20VoleUF(3, 2) }
 func verifC20VoleUF9()   { verifC20VoleUF(9, 1) }
+func verifC20VoleUF17()  { verifC20VoleUF(17, 1) }
 func verifC20VoleUF65()  { verifC20VoleUF(65, 1) }
 func verifC20VoleUF513() { verifC20VoleUF(513, 1) }
 
